@@ -25,6 +25,7 @@ def main(argv=None):
         if a.replay:
             with open(a.replay) as f:
                 payload = json.load(f)
+            payload['_path'] = a.replay
             return prop.replay(payload) if hasattr(prop, 'replay') else core.generic_replay(prop, payload)
         return core.run_check(prop, a.tier, a.seed)
     except core.MachineryError as e:
